@@ -23,3 +23,196 @@ fn k_model_memory_sizes_total() {
     assert!(m16.total() == s16, "sum of the 11 fields (u16 table)");
     kani::cover!(true, "reachable");
 }
+
+//@use_common
+
+// ---- independent packer of dat entries (the format as the property describes it), used by the native bounded stand-ins ----
+#[derive(Clone, Copy, PartialEq)]
+enum NMode { Raw, DeflateStored, DeflateFixed }
+
+fn nd_pad128(v: &mut Vec<u8>) { while v.len() % 128 != 0 { v.push(0); } }
+fn nd_pattern(len: usize, seed: u32) -> Vec<u8> {
+    let mut x = seed.wrapping_mul(2654435761).wrapping_add(1);
+    (0..len).map(|i| { x = x.wrapping_mul(1664525).wrapping_add(1013904223); if seed % 3 == 0 { (i % 251) as u8 } else { (x >> 24) as u8 } }).collect()
+}
+/// raw deflate, fixed Huffman codes, literals only (RFC 1951 3.2.6)
+fn nd_deflate_fixed(content: &[u8]) -> Vec<u8> {
+    let mut out: Vec<u8> = vec![]; let mut acc: u32 = 0; let mut nb = 0u32;
+    let mut put = |v: u32, n: u32, msb_first: bool, out: &mut Vec<u8>| {
+        for k in 0..n { let bit = if msb_first { (v >> (n - 1 - k)) & 1 } else { (v >> k) & 1 }; acc |= bit << nb; nb += 1; if nb == 8 { out.push(acc as u8); acc = 0; nb = 0; } }
+    };
+    put(1, 1, false, &mut out); put(1, 2, false, &mut out); // BFINAL = 1, BTYPE = 01
+    for b in content { let l = *b as u32; if l < 144 { put(0x30 + l, 8, true, &mut out); } else { put(0x190 + (l - 144), 9, true, &mut out); } }
+    put(0, 7, true, &mut out); // end of block
+    put(0, 7, false, &mut out); // flush the last partial byte
+    out
+}
+fn nd_block(content: &[u8], mode: NMode) -> Vec<u8> {
+    let mut out = vec![];
+    out.extend_from_slice(&16u32.to_le_bytes());
+    out.extend_from_slice(&0u32.to_le_bytes());
+    let stream: Option<Vec<u8>> = match mode {
+        NMode::Raw => None,
+        NMode::DeflateStored => { let mut s = vec![0x01u8]; s.extend_from_slice(&(content.len() as u16).to_le_bytes()); s.extend_from_slice(&(!(content.len() as u16)).to_le_bytes()); s.extend_from_slice(content); Some(s) }
+        NMode::DeflateFixed => Some(nd_deflate_fixed(content)),
+    };
+    match stream {
+        None => { out.extend_from_slice(&32000i32.to_le_bytes()); out.extend_from_slice(&(content.len() as i32).to_le_bytes()); out.extend_from_slice(content); }
+        Some(s) => { out.extend_from_slice(&(s.len() as i32).to_le_bytes()); out.extend_from_slice(&(content.len() as i32).to_le_bytes()); out.extend_from_slice(&s); }
+    }
+    nd_pad128(&mut out);
+    out
+}
+fn nd_standard(blocks: &[(Vec<u8>, NMode)]) -> (Vec<u8>, Vec<u8>) {
+    let mut payload = vec![]; let mut table = vec![]; let mut expect = vec![];
+    for (c, m) in blocks { table.extend_from_slice(&(payload.len() as i32).to_le_bytes()); let b = nd_block(c, *m); table.extend_from_slice(&(b.len() as u16).to_le_bytes()); table.extend_from_slice(&(c.len() as u16).to_le_bytes()); payload.extend_from_slice(&b); expect.extend_from_slice(c); }
+    let mut info = vec![];
+    info.extend_from_slice(&0u32.to_le_bytes()); info.extend_from_slice(&2i32.to_le_bytes()); info.extend_from_slice(&(expect.len() as u32).to_le_bytes());
+    info.extend_from_slice(&[0u8; 8]); info.extend_from_slice(&(blocks.len() as u32).to_le_bytes());
+    info.extend_from_slice(&table);
+    nd_pad128(&mut info);
+    let n = info.len() as u32; info[0..4].copy_from_slice(&n.to_le_bytes());
+    info.extend_from_slice(&payload);
+    (info, expect)
+}
+fn nd_texture(tex_header: &[u8], mips: &[Vec<(Vec<u8>, NMode)>]) -> (Vec<u8>, Vec<u8>) {
+    let mut payload = tex_header.to_vec(); let mut lods = vec![]; let mut sizes: Vec<u16> = vec![]; let mut expect = tex_header.to_vec();
+    for mip in mips {
+        let co = payload.len() as u32; let bo = sizes.len() as u32; let mut ds = 0u32;
+        for (c, m) in mip { let b = nd_block(c, *m); sizes.push(b.len() as u16); payload.extend_from_slice(&b); ds += c.len() as u32; expect.extend_from_slice(c); }
+        lods.push((co, payload.len() as u32 - co, ds, bo, mip.len() as u32));
+    }
+    let mut info = vec![];
+    info.extend_from_slice(&0u32.to_le_bytes()); info.extend_from_slice(&4i32.to_le_bytes()); info.extend_from_slice(&(expect.len() as u32).to_le_bytes());
+    info.extend_from_slice(&[0u8; 8]); info.extend_from_slice(&(lods.len() as u32).to_le_bytes());
+    for l in &lods { for v in [l.0, l.1, l.2, l.3, l.4] { info.extend_from_slice(&v.to_le_bytes()); } }
+    for s in &sizes { info.extend_from_slice(&s.to_le_bytes()); }
+    nd_pad128(&mut info);
+    let n = info.len() as u32; info[0..4].copy_from_slice(&n.to_le_bytes());
+    info.extend_from_slice(&payload);
+    (info, expect)
+}
+/// sections in storage order: stack, runtime, then per LOD vertex and index (edge geometry absent); each section is a list of blocks
+fn nd_model(stack: &[(Vec<u8>, NMode)], runtime: &[(Vec<u8>, NMode)], vertex: &[Vec<(Vec<u8>, NMode)>; 3], index: &[Vec<(Vec<u8>, NMode)>; 3], num_lods: u8) -> (Vec<u8>, Vec<u8>) {
+    // slots of ModelMemorySizes: 0 stack, 1 runtime, 2..4 vertex, 5..7 edge, 8..10 index
+    let mut order: Vec<(usize, &[(Vec<u8>, NMode)])> = vec![(0, stack), (1, runtime)];
+    for l in 0..3 { order.push((2 + l, &vertex[l])); order.push((8 + l, &index[l])); }
+    let (mut unc, mut comp, mut off, mut idx, mut num) = ([0u32; 11], [0u32; 11], [0u32; 11], [0u16; 11], [0u16; 11]);
+    let mut payload = vec![]; let mut sizes: Vec<u16> = vec![]; let mut body = vec![]; let mut sec_pos = [0u32; 11]; let mut sec_len = [0u32; 11];
+    for (slot, blocks) in order.iter() {
+        off[*slot] = payload.len() as u32; idx[*slot] = sizes.len() as u16; num[*slot] = blocks.len() as u16; sec_pos[*slot] = 0x44 + body.len() as u32;
+        for (c, m) in blocks.iter() { let b = nd_block(c, *m); sizes.push(b.len() as u16); comp[*slot] += b.len() as u32; unc[*slot] += c.len() as u32; payload.extend_from_slice(&b); body.extend_from_slice(c); sec_len[*slot] += c.len() as u32; }
+    }
+    let mut info = vec![];
+    info.extend_from_slice(&0u32.to_le_bytes()); info.extend_from_slice(&3i32.to_le_bytes()); info.extend_from_slice(&(0x44 + body.len() as u32).to_le_bytes());
+    info.extend_from_slice(&(sizes.len() as u32).to_le_bytes()); info.extend_from_slice(&(sizes.len() as u32).to_le_bytes()); info.extend_from_slice(&0x01000005u32.to_le_bytes());
+    for a in [&unc, &comp, &off] { for v in a.iter() { info.extend_from_slice(&v.to_le_bytes()); } }
+    for a in [&idx, &num] { for v in a.iter() { info.extend_from_slice(&v.to_le_bytes()); } }
+    info.extend_from_slice(&6u16.to_le_bytes()); info.extend_from_slice(&2u16.to_le_bytes()); info.push(num_lods); info.push(0); info.push(0); info.push(0);
+    for s in &sizes { info.extend_from_slice(&s.to_le_bytes()); }
+    nd_pad128(&mut info);
+    let n = info.len() as u32; info[0..4].copy_from_slice(&n.to_le_bytes());
+    info.extend_from_slice(&payload);
+    // the reassembled model file: synthesized 0x44-byte header + the sections in order
+    let mut expect = vec![];
+    expect.extend_from_slice(&0x01000005u32.to_le_bytes()); expect.extend_from_slice(&sec_len[0].to_le_bytes()); expect.extend_from_slice(&sec_len[1].to_le_bytes());
+    expect.extend_from_slice(&6u16.to_le_bytes()); expect.extend_from_slice(&2u16.to_le_bytes());
+    for l in 0..3 { expect.extend_from_slice(&(if sec_len[2 + l] != 0 || !vertex[l].is_empty() { sec_pos[2 + l] } else { 0 }).to_le_bytes()); }
+    for l in 0..3 { expect.extend_from_slice(&(if sec_len[8 + l] != 0 || !index[l].is_empty() { sec_pos[8 + l] } else { 0 }).to_le_bytes()); }
+    for l in 0..3 { expect.extend_from_slice(&sec_len[2 + l].to_le_bytes()); }
+    for l in 0..3 { expect.extend_from_slice(&sec_len[8 + l].to_le_bytes()); }
+    expect.push(num_lods); expect.push(0); expect.push(0); expect.push(0);
+    assert_eq!(expect.len(), 0x44);
+    expect.extend_from_slice(&body);
+    (info, expect)
+}
+fn nd_extract(entry: &[u8], entry_offset: usize, tag: &str) -> Option<Vec<u8>> {
+    let mut path = std::env::temp_dir();
+    path.push(format!("physis-verif-c02-{}-{}.dat0", std::process::id(), tag));
+    { use std::io::Write; let mut f = std::fs::File::create(&path).unwrap(); f.write_all(&vec![0xEEu8; entry_offset]).unwrap(); f.write_all(entry).unwrap(); f.write_all(&vec![0u8; 1024]).unwrap(); }
+    let r = { let mut dat = SqPackData::from_existing(path.to_str().unwrap()).unwrap(); dat.read_from_offset(entry_offset as u64) };
+    let _ = std::fs::remove_file(&path);
+    r
+}
+fn nd_splits(total: usize, shape: usize) -> Vec<usize> {
+    // block splits of a content of `total` bytes; blocks hold at most 16000 bytes, as in the format
+    let mut v = vec![]; let mut left = total; let mut k = 1usize;
+    while left > 0 {
+        let want = match shape { 0 | 1 => 16000, 2 => { let w = k; k = (k * 3 + 1).min(16000); w } _ => if v.len() < 40 { 127 + v.len() % 3 } else { 15999 } };
+        let n = left.min(want); v.push(n); left -= n;
+    }
+    if v.is_empty() { v.push(0); }
+    v
+}
+fn nd_blocks(content: &[u8], shape: usize, modes: usize) -> Vec<(Vec<u8>, NMode)> {
+    let mut out = vec![]; let mut at = 0usize;
+    for (k, n) in nd_splits(content.len(), shape).into_iter().enumerate() {
+        let m = match (k + modes) % 3 { 0 => NMode::Raw, 1 => NMode::DeflateStored, _ => NMode::DeflateFixed };
+        let m = if modes == 9 { NMode::Raw } else { m };
+        out.push((content[at..at + n].to_vec(), m)); at += n;
+    }
+    out
+}
+
+//@unit props=C02 label=B tier=quick native=1 fn=sqpack::data::SqPackData::{read_from_offset,read_standard_file,read_texture_file,read_model_file},sqpack::read_data_block,compression::no_header_decompress bound="by execution on temporary dat files: standard entries of 9 lengths (0..40000) x 4 block splits x 4 raw/deflate assignments (stored and fixed-Huffman streams); texture entries with 1..3 mips of 1..4 unevenly sized blocks; model entries with 1..3 LODs and 0..3 blocks per section; entry offsets 0, 128, 0x800"
+//@desc extraction returns exactly the packed bytes: a standard entry the concatenation of its blocks; a texture entry its header followed by every mip block in order; a model entry the synthesized 0x44-byte header (version, stack/runtime sizes, counts, per-LOD vertex/index offsets and sizes describing the reassembled sections) followed by the stack, runtime, vertex and index sections; however the content is split and whether each block is raw or deflated
+#[test]
+fn native_sqpack_reassembly() {
+    let mut cases = 0u64;
+    for (li, len) in [0usize, 1, 127, 128, 129, 15999, 16000, 16001, 40000].into_iter().enumerate() {
+        for shape in 0..4usize { for modes in [0usize, 1, 2, 9] {
+            let content = nd_pattern(len, (li * 7 + shape) as u32);
+            let (entry, expect) = nd_standard(&nd_blocks(&content, shape, modes));
+            assert_eq!(expect, content);
+            let got = nd_extract(&entry, [0usize, 128, 0x800][(li + shape) % 3], "std").expect("standard entry extracts");
+            assert!(got == expect, "standard entry: {} bytes, split {shape}, modes {modes}: got {} bytes", len, got.len());
+            cases += 1;
+        } }
+    }
+    for nm in 1..=3usize { for shape in 0..4usize {
+        let hdr = nd_pattern(80, 5);
+        let mips: Vec<Vec<(Vec<u8>, NMode)>> = (0..nm).map(|m| nd_blocks(&nd_pattern([600usize, 200, 57][m] * (shape + 1), (m + shape) as u32), [3usize, 2, 0][(m + shape) % 3], m + shape)).collect();
+        let (entry, expect) = nd_texture(&hdr, &mips);
+        let got = nd_extract(&entry, 0x800, "tex").expect("texture entry extracts");
+        assert!(got == expect, "texture entry: {nm} mips, shape {shape}: got {} of {} bytes", got.len(), expect.len());
+        cases += 1;
+    } }
+    for lods in 1..=3u8 { for shape in 0..4usize {
+        let sec = |n: usize, s: u32| nd_blocks(&nd_pattern(n, s), (shape + s as usize) % 4, shape + s as usize);
+        let none: Vec<(Vec<u8>, NMode)> = vec![];
+        let vertex = [sec(700 + shape * 33, 1), if lods >= 2 { sec(300, 2) } else { none.clone() }, if lods >= 3 { sec(90 + shape, 3) } else { none.clone() }];
+        let index = [sec(260, 4), if lods >= 2 { sec(130 + shape * 2, 5) } else { none.clone() }, if lods >= 3 { sec(64, 6) } else { none.clone() }];
+        let (entry, expect) = nd_model(&sec(816, 7), &sec(1500 + shape * 129, 8), &vertex, &index, lods);
+        let got = nd_extract(&entry, 128 * shape, "mdl").expect("model entry extracts");
+        assert!(got[..0x44] == expect[..0x44], "model entry ({lods} LODs, shape {shape}): synthesized header {:02x?} != {:02x?}", &got[..0x44], &expect[..0x44]);
+        assert!(got == expect, "model entry ({lods} LODs, shape {shape}): sections differ ({} vs {} bytes)", got.len(), expect.len());
+        cases += 1;
+    } }
+    println!("NATIVE native_sqpack_reassembly cases={cases}");
+}
+
+//@unit props=C18 label=B tier=quick native=1 fn=sqpack::data::SqPackData::read_from_offset bound="by execution on temporary dat files: one standard (3 blocks), one texture (2 mips) and one model entry (2 LODs), each followed by 1 KiB of slack: every truncation and 7 single-byte corruptions per byte of the entry's file-info header and of its first two block headers, every 61st byte elsewhere"
+//@desc damaged dat entries (truncated anywhere, any file-info, block-table, size-table or block-header byte damaged) yield None or data, never a panic
+#[test]
+fn native_sqpack_damaged_nopanic() {
+    let none: Vec<(Vec<u8>, NMode)> = vec![];
+    let std_e = nd_standard(&nd_blocks(&nd_pattern(700, 1), 3, 0)).0;
+    let tex_e = nd_texture(&nd_pattern(80, 2), &[nd_blocks(&nd_pattern(500, 3), 3, 1), nd_blocks(&nd_pattern(60, 4), 0, 2)]).0;
+    let mdl_e = nd_model(&nd_blocks(&nd_pattern(300, 5), 0, 0), &nd_blocks(&nd_pattern(400, 6), 3, 1), &[nd_blocks(&nd_pattern(256, 7), 0, 2), nd_blocks(&nd_pattern(100, 8), 0, 0), none.clone()],
+                         &[nd_blocks(&nd_pattern(64, 9), 0, 1), nd_blocks(&nd_pattern(32, 10), 0, 0), none.clone()], 2).0;
+    let mut s = NativeSites::new();
+    let mut path = std::env::temp_dir();
+    path.push(format!("physis-verif-c18-{}.dat0", std::process::id()));
+    let ps = path.to_str().unwrap().to_string();
+    let f = move |b: &[u8]| {
+        std::fs::write(&ps, b).unwrap();
+        if let Some(mut dat) = SqPackData::from_existing(&ps) { let _ = dat.read_from_offset(0); }
+    };
+    for e in [&std_e, &tex_e, &mdl_e] {
+        let hdr = u32::from_le_bytes(e[0..4].try_into().unwrap()) as usize;
+        assert!(SqPackData::from_existing("/nonexistent/physis.dat0").is_none(), "a missing dat file is an ordinary failure");
+        s.sweep(e, hdr + 288, 61, &f);
+    }
+    let _ = std::fs::remove_file(&path);
+    s.finish("native_sqpack_damaged_nopanic");
+}
